@@ -44,44 +44,62 @@ Theorem C02_exact_refuted : exists sch ans L q,
 Proof. exact exact_refuted. Qed.
 Print Assumptions C02_exact_refuted.
 
-(** One closed witness per known class (well-typed query, conforming rows, [known_class] = the
-    class, answer different from the matching events), plus the two layout-dependent classes. *)
+(** One closed witness per remaining known class (well-typed query, conforming rows,
+    [known_class] = the class, answer different from the matching events), plus a leaf answer that is
+    not a superset.  (Retired in the fix round: the witnesses of FloatColumn, BoolColumn, NeqPruned,
+    EnumUnknownVariant, TemporalNegativeLiteral and MixedZoneProvenance — see
+    [C02_repaired_findings_exact].) *)
 Theorem C02_known_classes_witnessed :
   witness (Some NotComplement) (w_ideal w_seg) w_seg (qw (ENot (ECmp n_a CEq (LInt 1)))) /\
   witness (Some LiteralDropped) (w_ideal w_mem) w_mem (qw (ECmp n_a CGt (LFloat f_1_5 s_1_5))) /\
   witness (Some LiteralDropped) (w_ideal w_seg) w_seg (qw (ECmp n_a CGt (LFloat f_1_5 s_1_5))) /\
-  witness (Some FloatColumn) (w_ideal w_mem) w_mem (qw (ECmp n_f CGt (LInt 1))) /\
-  witness (Some FloatColumn) (w_ideal w_seg) w_seg (qw (ECmp n_f CGt (LInt 1))) /\
-  witness (Some BoolColumn) (w_ideal w_seg) w_seg (qw (ECmp n_b CEq (LStr b_true))) /\
-  witness (Some NeqPruned) (w_ideal w_seg) w_seg (qw (ECmp n_a CNe (LInt 1))) /\
-  witness (Some EnumUnknownVariant) (w_ideal w_seg) w_seg (qw (ECmp n_e CNe (LStr s_zzz))) /\
+  witness (Some FloatColumnIn) (w_ideal w_f2) w_f2 (qw (EIn n_f [LInt 2])) /\
+  witness (Some FloatThresholdRounded) (w_ideal w_f53) w_f53 (qw (ECmp n_f CLt (LInt 9007199254740993))) /\
   witness (Some U64NegativeThreshold) (w_ideal w_seg) w_seg (qw (ECmp n_u CGt (LInt (-1)))) /\
+  witness (Some U64NegativeThreshold) (w_ideal w_seg) w_seg (qw (ECmp n_u CNe (LInt (-1)))) /\
   witness (Some U64AboveI64Max) (w_ideal w_big) w_big (qw (ECmp n_u CGt (LInt 0))) /\
   witness (Some NumericLookingString) (w_ideal w_mem) w_mem (qw (ECmp n_s CEq (LStr s_007))) /\
   witness (Some StringOrdering) (w_ideal w_mem) w_mem (qw (ECmp n_s CGt (LStr s_p))) /\
   witness (Some NullSpelling) (w_ideal w_mem) w_mem (qw (ECmp n_os CEq (LStr b_null))) /\
-  witness (Some TemporalNegativeLiteral) (fun _ _ => Some []) w_seg (qw (ECmp n_d CGt (LInt (-5)))) /\
-  (witness None w_mixed_ans w_two w_mixed_q /\
-   mixed_provenance w_sch w_mixed_ans w_two w_mixed_q = true /\
-   leaves_sound w_sch w_mixed_ans w_two w_mixed_q = true) /\
+  witness (Some NeqOnOptionalText) (w_ideal w_mem) w_mem (qw (ECmp n_os CNe (LStr s_zzz))) /\
+  witness (Some NeqOnOptionalText) (w_ideal w_seg) w_seg (qw (ECmp n_os CNe (LStr s_zzz))) /\
   (witness None (fun _ _ => Some []) w_seg (qw (ECmp n_a CEq (LInt 1))) /\
    leaves_sound w_sch (fun _ _ => Some []) w_seg (qw (ECmp n_a CEq (LInt 1))) = false).
 Proof.
-  exact (conj w_not (conj w_dropped (conj w_dropped_seg (conj w_float (conj w_float_seg (conj w_bool
-        (conj w_neq (conj w_enum (conj w_u64neg (conj w_u64big (conj w_numstr (conj w_strord
-        (conj w_nullsp (conj w_tneg (conj w_mixed w_unsound))))))))))))))).
+  exact (conj w_not (conj w_dropped (conj w_dropped_seg (conj w_float_in (conj w_float_round
+        (conj w_u64neg (conj w_u64neg_ne (conj w_u64big (conj w_numstr (conj w_strord (conj w_nullsp
+        (conj w_neq_opt (conj w_neq_opt_seg w_unsound))))))))))))).
 Qed.
 Print Assumptions C02_known_classes_witnessed.
 
-(** The strongest true statement: for EVERY schema, layout (any number of in-memory rows, segments,
-    zones, zone sizes), structure answers and query (FOR + WHERE with =, <, <=, >, >=, IN, AND, OR and
-    != on enum fields) outside the known classes, whose candidate zones do not mix uid-carrying and
-    bare zones and whose leaves are supersets (C08), QUERY returns exactly the stored events that
-    satisfy the specification — as a list, in storage order. *)
+(** The repaired findings: the former witnesses of FloatColumn (memory and flushed), BoolColumn,
+    NeqPruned, EnumUnknownVariant, TemporalNegativeLiteral and MixedZoneProvenance are now outside
+    every known class and answered exactly. *)
+Theorem C02_repaired_findings_exact :
+  exact_on (w_ideal w_mem) w_mem (qw (ECmp n_f CGt (LInt 1))) /\
+  exact_on (w_ideal w_seg) w_seg (qw (ECmp n_f CGt (LInt 1))) /\
+  exact_on (w_ideal w_seg) w_seg (qw (ECmp n_b CEq (LStr b_true))) /\
+  exact_on (w_ideal w_seg) w_seg (qw (ECmp n_a CNe (LInt 1))) /\
+  exact_on (w_ideal w_seg) w_seg (qw (ECmp n_e CNe (LStr s_zzz))) /\
+  exact_on (w_ideal w_seg) w_seg (qw (ECmp n_d CGt (LInt (-5)))) /\
+  exact_on w_mixed_ans w_two (qw (ECmp n_oi CGe (LInt 0))).
+Proof. exact repaired_exact. Qed.
+Print Assumptions C02_repaired_findings_exact.
+
+(** Since /repo d4c8eed the provenance of a candidate zone no longer decides whether it is read. *)
+Theorem C02_mixed_provenance_gone : forall sch ans L q, mixed_provenance sch ans L q = false.
+Proof. exact mixed_provenance_gone. Qed.
+Print Assumptions C02_mixed_provenance_gone.
+
+(** The strongest true statement — stronger than before the fix round: float and bool fields, [!=]
+    on every field kind, unknown enum variants, negative instants and any mixture of candidate-zone
+    provenance are now INSIDE the exact fragment.  For EVERY schema, layout (any number of in-memory
+    rows, segments, zones, zone sizes), structure answers and query (FOR + WHERE with =, !=, <, <=, >,
+    >=, IN, AND, OR) outside the remaining known classes whose leaves are supersets (C08), QUERY returns
+    exactly the stored events that satisfy the specification — as a list, in storage order. *)
 Theorem C02_exact_outside_known : forall sch ans L q,
   (forall ev, In ev (events L) -> row_conforms sch (ev_row ev) = true) ->
   known_class sch (events L) q = None ->
-  mixed_provenance sch ans L q = false ->
   leaves_sound sch ans L q = true ->
   run_query sch ans L q = filter (sat_query sch q) (events L).
 Proof. exact exact_outside_known. Qed.
@@ -93,19 +111,19 @@ Theorem C02_layout_independent : forall sch ans1 ans2 L1 L2 q,
   Permutation (events L1) (events L2) ->
   (forall ev, In ev (events L1) -> row_conforms sch (ev_row ev) = true) ->
   known_class sch (events L1) q = None ->
-  mixed_provenance sch ans1 L1 q = false -> leaves_sound sch ans1 L1 q = true ->
-  mixed_provenance sch ans2 L2 q = false -> leaves_sound sch ans2 L2 q = true ->
+  leaves_sound sch ans1 L1 q = true ->
+  leaves_sound sch ans2 L2 q = true ->
   Permutation (run_query sch ans1 L1 q) (run_query sch ans2 L2 q).
 Proof. exact layout_independent. Qed.
 Print Assumptions C02_layout_independent.
 
 (** The hypotheses are satisfiable on a layout with rows in memory and in two segments, a zone that
     mixes matching and non-matching rows, ideal structures, and a compound predicate with FOR, AND,
-    OR, IN, an unknown enum variant and a negative number on a u64 field (4 of 6 rows match). *)
+    OR, IN, an unknown enum variant, a negative number on a u64 field, a float comparison, a bool
+    equality and [!=] on an int and an enum field (4 of 6 rows match). *)
 Theorem C02_outside_known_example :
   (forall ev, In ev (events ex_L) -> row_conforms w_sch (ev_row ev) = true) /\
   known_class w_sch (events ex_L) ex_q = None /\
-  mixed_provenance w_sch (w_ideal ex_L) ex_L ex_q = false /\
   leaves_sound w_sch (w_ideal ex_L) ex_L ex_q = true /\
   wt_query w_sch ex_q = true /\
   length (run_query w_sch (w_ideal ex_L) ex_L ex_q) = 4 /\ length (events ex_L) = 6.
@@ -115,7 +133,6 @@ Print Assumptions C02_outside_known_example.
 (** … and so are those of layout independence (the same events kept in memory only). *)
 Theorem C02_layout_independent_example :
   Permutation (events ex_L) (events ex_L_mem) /\
-  mixed_provenance w_sch (w_ideal ex_L_mem) ex_L_mem ex_q = false /\
   leaves_sound w_sch (w_ideal ex_L_mem) ex_L_mem ex_q = true /\
   length (run_query w_sch (w_ideal ex_L_mem) ex_L_mem ex_q) = 4.
 Proof. exact layout_independent_example. Qed.
